@@ -201,7 +201,7 @@ def theorems_of(prop_id):
     p = os.path.join(COQ, "Props", prop_id + ".v")
     if not os.path.exists(p):
         return []
-    return re.findall(r"^(?:Theorem|Corollary)\s+([A-Za-z0-9_']+)", open(p).read(), flags=re.M)
+    return re.findall(r"^\s*(?:Theorem|Corollary)\s+([A-Za-z0-9_']+)", open(p).read(), flags=re.M)
 
 
 def count_obligations(prop_id):
@@ -210,7 +210,7 @@ def count_obligations(prop_id):
     if not os.path.exists(p):
         return 0, []
     text = open(p).read()
-    n = len(re.findall(r"^(?:Theorem|Lemma|Corollary|Example)\s", text, flags=re.M))
+    n = len(re.findall(r"^\s*(?:Theorem|Lemma|Corollary|Example)\s", text, flags=re.M))
     files = ["Props/%s.v" % prop_id]
     seen = set()
     todo = re.findall(r"\b([A-Z][A-Za-z0-9]*Proofs)\b", " ".join(re.findall(r"^From OV\.Model Require Import ([^.]*)\.", text, flags=re.M)))
@@ -222,7 +222,7 @@ def count_obligations(prop_id):
         q = os.path.join(COQ, "Model", m + ".v")
         if os.path.exists(q):
             t = open(q).read()
-            n += len(re.findall(r"^(?:Theorem|Lemma|Corollary|Example)\s", t, flags=re.M))
+            n += len(re.findall(r"^\s*(?:Theorem|Lemma|Corollary|Example)\s", t, flags=re.M))
             files.append("Model/%s.v" % m)
             todo += re.findall(r"\b([A-Z][A-Za-z0-9]*Proofs)\b", " ".join(re.findall(r"^From OV\.Model Require Import ([^.]*)\.", t, flags=re.M)))
     return n, files
